@@ -17,7 +17,7 @@ prop("C10", True,
      "Static necessary-condition check, all paths/all inputs: in every Servicer holding a *services.Limiter no write to the "
      "handler's connection is reachable on Handle's CFG without the true edge of limiter.Allow(conn.RemoteAddr()) or a non-UDP edge, "
      "no second reply without a new token, the bucket key is the bare IP, burst is a constant <= 4, and the per-IP table is only "
-     "ever read/inserted. Decides the mechanism, not rate.Limiter's arithmetic or wall-clock timing.",
+     "ever read/inserted. a reply made through a helper counts as one datagram only if the helper's own writes are neither in a loop nor sequenced; Decides the mechanism, not rate.Limiter's arithmetic or wall-clock timing.",
      "Trusts golang.org/x/time/rate; trusts that the datagram connection's RemoteAddr is the datagram source; go/ssa + edge-deleted CFG reachability.",
      "guarded CFG reachability (enabling-edge deletion) + who-may-touch + shape rules over go/ssa",
      "DESIGN.md §2 C10")
@@ -27,7 +27,7 @@ prop("C08", True,
      "reasoning: after Peek consumed bytes every successful return hands out the peeking connection), Peek at most once, detector sees exactly the "
      "peeked bytes, ascending scan with first acceptor returning, single-candidate shortcut, replay shape of peekConnection.Read/Peek (private copy of "
      "exactly p[:n], buffer served first and re-sliced by the copied count, under the mutex), dispatcher hand-over (selector's connection wrapped by the "
-     "idle timeout, nil-service guard, deferred close), compareAddr accept conditions, timeoutConn delegation. The candidate list is traced semantically: it must be the port-table entry whose key compareAddr accepted against conn.LocalAddr() (in findService or a helper given that address) – lists from a cache or a by-string lookup are rejected. Does not decide whether one Peek sees enough "
+     "idle timeout, nil-service guard, deferred close), compareAddr accept conditions, timeoutConn delegation. Every connection type that serves Read from a held buffer advances it by exactly the copied count (a short peek buffer must not lose the rest). The candidate list is traced semantically: it must be the port-table entry whose key compareAddr accepted against conn.LocalAddr() (in findService or a helper given that address) – lists from a cache or a by-string lookup are rejected. Does not decide whether one Peek sees enough "
      "bytes for a detector when the first segment is short.",
      "Trusts listener net.Conn implementations to deliver bytes in order; detectors are pure predicates on the prefix.",
      "typestate over go/ssa CFG (edge-dominance conditions + monotone-cell guard analysis), guarded reachability, value-provenance shape rules",
@@ -58,6 +58,7 @@ prop("C13", True,
      "only decimal formatting and the separators '-' and ',', JA3Digest = hex(md5([]byte(JA3()))), extension types appended once per extension independent of type and stored on the hello, "
      "cipher suites/curves filled by ascending index as big-endian 16-bit values, clientHelloInfo field pairing, https events carrying hello.JA3Digest()/hello.ServerName. "
      "the JA3 source fields of a received clientHelloMsg are written by unmarshal only (no store, element store or append through a re-slice elsewhere in the forked stack). "
+     "inside unmarshal the JA3 list fields are nil, make+fill, append or a slice of the message – never a list of constants. "
      "Decides shape and order on all paths; MD5/hex/decimal formatting are trusted.",
      "Trusts crypto/md5, encoding/hex, fmt/strconv; record-layer reassembly not analysed; arithmetic-mask GREASE predicates are rejected as undecidable by the rule (table/switch forms accepted).",
      "dominance-ordered field use + sibling-loop cross-check + dominating-condition extraction + provenance over go/ssa",
@@ -77,7 +78,7 @@ prop("C18", True,
      "Static check of the persistence mechanism over all restart histories and crash points: every function that both Gets and Sets on storage.Storage (5 getters, 8 items) follows "
      "load-or-generate-then-store with key agreement (constant keys paired, Set only on that Get's failure arm, stored bytes are the generator's output and are the bytes used, no generator on the load arm, "
      "certificate generated from the loaded-or-stored key, key item settled before the certificate can be stored); storage Get/Set derive the database key identically; the token is adopted from the file only "
-     "when non-empty, the token path is only created by os.Rename of a fully written temporary file, write/rename errors are consumed. Crash-point coverage is by construction (atomic publish / store ordering), "
+     "when non-empty, the token path is only created by os.Rename of a fully written temporary file, write/rename errors are consumed. each identity getter is called only from construction code, or under a mutex/sync.Once when reachable from a handler or an escaping callback; Crash-point coverage is by construction (atomic publish / store ordering), "
      "not by enumeration of kill instants.",
      "Trusts badger's atomic durable Set and POSIX rename atomicity.",
      "load/store pairing by key + dominating-condition extraction + CFG ordering (reachability between stores) + who-may-create rule over go/ssa",
@@ -109,6 +110,7 @@ prop("C05", True,
      "callees, callers, maps incl. interface-dispatched fillers and JSON-born maps; JSON-safety by structural recursion; unresolved origins fail unless in the reviewed table), (b) the payload option stores string/hex/len of the "
      "same captured slice, (c) Source/DestinationAddr key/role pairing in both the TCP and UDP arm, (d) MergeFrom guarded exactly by !Has(name), CopyFrom unconditional, (e) MarshalJSON/ToMap and the named channels' "
      "snapshot callbacks copy every string key and never stop the range, MarshalJSON returns json.Marshal of a snapshot taken in the same call, Event.Store/Range/Has/Get forward directly to the sync.Map without extra state. "
+     "(f) a buffer an object hands back to a sync.Pool leaves the object in the same step (field cleared on the Put's path), so it cannot be pooled twice. "
      "Does not decide run-time values (NaN) or transport inside back ends.",
      "Trusts encoding/json on structurally safe types and third-party Marshal methods.",
      "interprocedural type provenance of interface values + structural JSON-safety + shape rules over go/ssa",
@@ -138,7 +140,7 @@ prop("C02", True,
      "(three individually named exceptions with re-checked premises), (b) every dereference of a may-return-nil result is dominated by a nil test, (c) all 69 index/slice/make obligations on frame-derived bytes (inter-procedural taint from the "
      "Recvfrom buffer) are discharged by a difference-bound prover: facts from edge-dominating conditions, definitions, interval arithmetic with condition-aware refinement of x*k/x<<k, forwarding of struct-field loads to reaching stores, "
      "per-edge case splits at value and memory phis. Off-by-one mutants of each guard are detected. ARP parsing excluded on the re-checked premise that Canary.doARP is never written. Self-constructed buffers (Marshal/send/checksum update) are attempted, "
-     "reported, not claimed. May-return-nil is computed through phis and one level of callees. 'A later probe still yields its event' is decided only as 'the loop cannot die by these causes'.",
+     "reported, not claimed. A mutex taken in the receive loop's reach is released on every path (a leaked lock blocks the loop at the next acquisition). May-return-nil is computed through phis and one level of callees. 'A later probe still yields its event' is decided only as 'the loop cannot die by these causes'.",
      "Entry assumption: frames >= 14 bytes (property's quantifier). Callees do not modify a header struct between a guard and the use of its fields. syscall.Recvfrom returns n <= len(buf). 32-bit unsigned loop counters bounded by a length do not wrap.",
      "call-graph reach + inter-procedural taint + difference-bound (zone) prover with memory forwarding over go/ssa",
      "DESIGN.md §2 C02")
@@ -148,6 +150,7 @@ prop("C17", True,
      "with both, all 20 index/slice/make obligations in the methods of *Decode are discharged by the difference-bound prover (summary imported at the dominating call, sum atoms for offset+size); failing arm (lasterror stored, zero returned, no cursor movement or deferred advance), "
      "advance == size checked, bytes read == data[offset:offset+size] for every primitive. IPP: tag tables of encode side (composite literals) and decode side agree, per value type the decoder's first-value operation sequence mirrors the encoder's widths, additional values are read "
      "in a loop while the peeked tag equals the value's tag, every look-ahead byte is given back on each exit path (path-sum over the CFG), no use of a nil value after an unmatched tag or failed assertion, response/event fields echo the decoded request. Full round-trip equality over all "
+     "no list is built by appending over a re-slice of another object's list (request and response would overwrite each other); "
      "attribute combinations is not decided.",
      "Trusts encoding/binary; the decoder is used single-threaded per request.",
      "difference-bound prover with guard-function summaries and an inductive field invariant + sibling encode/decode cross-check + CFG path-sum rule over go/ssa",
@@ -158,7 +161,7 @@ prop("C01", True,
      "panic/logger Panic/Fatal/os.Exit, unchecked type assertion, nor index/slice/make the difference-bound prover cannot discharge; no exit site reachable from a handler; the dispatcher's own per-connection recover is present; (b) no function reachable from a handler "
      "calls itself on every path; (c) every access to a map stored in a shared service object (type closure from the Servicer structs, package-level maps included) that is written from handler-reachable code is under a mutex of the same object; (writes – insert/delete – need the exclusive lock, RLock does not count) (d) every loop driven by "
      "decoder reads has an exit that fires when a read fails (error-state test, a callee that provably propagates LastError, or a continuation condition that is false for the 0 a failed read returns, with the tag>0 premise proved). "
-     "Implicit panics on the per-connection goroutine are covered by the checked dispatcher recover; memory growth in general and third-party code are not decided.",
+     "A relative Seek of the decoder by an input-derived amount must be provably non-negative (a negative length would move the cursor back and the decode loop would repeat for ever while memory grows). Implicit panics on the per-connection goroutine are covered by the checked dispatcher recover; memory growth in general and third-party code are not decided.",
      "x/crypto/ssh runs auth callbacks on the calling goroutine; library goroutines (ssh.DiscardRequests, io.Copy) do not panic on peer input; VTA call graph precision.",
      "call-graph reach per goroutine root + kill-site/recover rule + must-recurse + lock-dominance for shared maps + loop-exit classification, with the zone prover for implicit panics",
      "DESIGN.md §2 C01")
@@ -166,7 +169,7 @@ prop("C01", True,
 prop("C03", True,
      "Static isolation check for all interleavings and histories of the eight stateful services: a forward may-alias analysis marks as shared the Handle receiver, package-level variables of the service packages, variables captured by closures built before any connection existed, "
      "and everything loaded from them (inter-procedural over the VTA reach of each Handle restricted to the service's own code; field-based heap; closures, parameters, results, interface dispatch; cut at the event pipeline, directors, loggers, sync, TLS key material, the per-source limiter). "
-     "Violations: a store through a shared address into a struct field or global, any send/receive/range/select on a shared channel, a mutating call on a shared stateful library object. By-value copies of shared structs are tracked per object (their reference fields stay shared until re-initialised before the object is handed on); element stores into and appends to shared slices are sinks. Keyed maps are allowed (their locking is C01's). "
+     "Violations: a store through a shared address into a struct field or global, any send/receive/range/select on a shared channel, a mutating call on a shared stateful library object. Per-peer state in a shared map is keyed by conn.RemoteAddr() or its String() (other values computed from the address are rejected: injectivity cannot be established). By-value copies of shared structs are tracked per object (their reference fields stay shared until re-initialised before the object is handed on); element stores into and appends to shared slices are sinks. Keyed maps are allowed (their locking is C01's). "
      "Event addresses: all 135 event.SourceAddr/DestinationAddr sites under services/ take RemoteAddr()/LocalAddr() (not swapped) of a connection that is not stored in a service object. Cross-talk through the OS, libraries or response ordering is not decided.",
      "One Servicer per configured service, Handle called concurrently (server/honeytrap.go). The may-alias analysis is field-based and flow-insensitive (over-approximate); library callbacks are not followed.",
      "inter-procedural shared-memory (escape/ownership) taint with sink rules + role/provenance rule over go/ssa and the VTA call graph",
@@ -176,7 +179,7 @@ prop("C04", True,
      "Static necessary-condition checks, for all inputs and segmentations, of the capture mechanisms the property's why_tests_cant names: (R1) no buffering reader over the handler's connection is built inside a request loop (pipelined services), "
      "(R2) no direct conn.Read beside a buffered reader, (R3) no type assertion of the handler's connection to a concrete type that no in-repo caller passes (set computed from the call sites of Servicer.Handle: timeout wrapper, event.Conn) – such a branch is dead and its "
      "requests/datagrams are never decoded, (R4) every completed iteration of the redis/memcached/telnet request loops emits the command's event and the ftp/smtp line hooks hand each line to the event pump exactly once, (R5) on stream services the count returned by Read on the "
-     "connection is not discarded. (R6) every datagram pseudo-connection built in a receive loop owns storage produced in that iteration (no buffer hoisted out of the loop). THE CORE (equal event lists for every cut of the byte stream) IS A RUN-TIME PROPERTY AND IS NOT DECIDED; this check only rules out the structural ways of losing bytes/requests.",
+     "connection is not discarded. (R7) the telnet line editor's pending-input field is emptied only under a dominating test that nothing is pending. (R6) every datagram pseudo-connection built in a receive loop owns storage produced in that iteration (no buffer hoisted out of the loop). THE CORE (equal event lists for every cut of the byte stream) IS A RUN-TIME PROPERTY AND IS NOT DECIDED; this check only rules out the structural ways of losing bytes/requests.",
      "In-repo call sites of Handle (server dispatcher, https) are the only callers; conn-derivation is an intra-procedural taint followed into same-package callees.",
      "structural lints over go/ssa: loop membership of constructor calls, dead-type-assertion via call-site type sets, must-pass event emission, discarded Read counts",
      "DESIGN.md §2 C04")
@@ -192,7 +195,7 @@ prop("C09", True,
 prop("C14", True,
      "Static check of the two structural clauses only; THE ARITHMETIC CORE (SYN-ACK/ACK numbers modulo 2^32 over all ISNs, one's-complement checksums over all payload parities, state-table lookup under all interleavings, payload-prefix content) IS NOT DECIDED – no static argument in reach bounds those run-time numerics. "
      "Decided: (1) replies are addressed back to the sender and carry this connection's counters: role-swapped provenance of every field of the tcp/ipv4 header literals in send(), NewState/StateTable.Get argument roles, RecvNext = SYN seq + 1 and SendNext = ISS + 1 stored before the SYN|ACK, sent only in LISTEN; "
-     "(2) simultaneous connections do not disturb each other through shared memory: lock table (Canary.buffer under Canary.m; Socket.rbuffer under State.m locally or in every caller; any other used ring field fails closed) no ordered uint32 comparison on values of the client's sequence space (SEG.SEQ/RCV.NXT and sums), which wrap for client ISNs the property quantifies over – the sensor's own space is observed only; and ring ownership (a ring field is only assigned a fresh allocation and never handed on).",
+     "(2) simultaneous connections do not disturb each other through shared memory: lock table (Canary.buffer under Canary.m; Socket.rbuffer under State.m locally or in every caller; any other used ring field fails closed) every checksum routine folds its carries in a loop or at least twice; no ordered uint32 comparison on values of the client's sequence space (SEG.SEQ/RCV.NXT and sums), which wrap for client ISNs the property quantifies over – the sensor's own space is observed only; and ring ownership (a ring field is only assigned a fresh allocation and never handed on).",
      "glycerine/rbuf rings are not concurrency safe; locks are matched by field name; the arithmetic is out of scope.",
      "field-role provenance of composite literals + lock-dominance table (with caller-held locks) + ownership/escape rule over go/ssa",
      "DESIGN.md §2 C14")
@@ -201,7 +204,7 @@ prop("C15", True,
      "Static necessary-condition checks for faithful relaying; BYTE-FOR-BYTE EQUALITY of what net/http re-serialises, cross-goroutine ordering (ssh exit-status versus end of data), stderr relaying and datagram boundaries ARE NOT DECIDED. "
      "Decided for every Proxier service (http-proxy, ssh-proxy, copy, dns-proxy): (1) who-may-dial: no outbound connection constructor in the proxy's reach, every backend connection is s.d.Dial(conn) on the director stored by SetDirector, the configured director reaches SetDirector unchanged, and the forward director dials exactly "
      "JoinHostPort(Host or its host part, this connection's port or the configured port) with the protocol of the local address type and keeps no state; (2) crossing: every relay write's content is traced to a read from the opposite leg (HTTP object, io.Copy pair, framed helper, Read count of the same buffer), ssh credentials/channel-open/requests/replies/data pumps are built from the received object and cross sides once per direction, the ssh recorder passes bytes through; "
-     "(3) readers per leg are created outside the relay loop, a bare Read on a stream leg is never taken as a whole message, connection-type tests match what the dispatcher passes; (4) relaying is not gated on decoding the client's bytes and parsed HTTP objects are not modified before being re-serialised; (5) every relay write to the backend is dominated or followed on every path by an event emission, and event addresses come from the client connection.",
+     "(3) readers per leg are created outside the relay loop, a bare Read on a stream leg is never taken as a whole message, connection-type tests match what the dispatcher passes; (4) relaying is not gated on decoding the client's bytes and parsed HTTP objects are not modified before being re-serialised; the copier of the client->backend direction never fully closes a leg when the client stops sending (CloseWrite only), an in-repo writer placed beside the backend in io.MultiWriter reports len(p) on success; (5) every relay write to the backend is dominated or followed on every path by an event emission, and event addresses come from the client connection.",
      "net/http and x/crypto/ssh are trusted to re-serialise/deliver what they parsed; directors other than forward choose their own address by design; wrappers are limited to bufio/textproto constructors and the service's own helpers.",
      "leg typing of stream values (client/backend) over go/ssa + who-may-call + provenance of relay payloads + dominance/path rules",
      "DESIGN.md §2 C15")
